@@ -200,6 +200,11 @@ def _leaf(name, sp):
     if name == 'V':
         # returns (a view of) its input when called out-of-place
         return odl.RealPart(sp)
+    if name == 'Lap':
+        # a stencil: correct for distinct x / out, not safe for out aliased with x
+        return odl.Laplacian(sp, pad_mode='symmetric')
+    if name == 'PD':
+        return odl.PartialDerivative(sp, axis=0, method='central', pad_mode='order1')
     raise KeyError(name)
 
 
@@ -244,6 +249,13 @@ def _expr(o):
     if k == 'flvec':
         f = odl.InnerProductOperator(el(sp, 1)) if o.get('lin', 1) else odl.NormOperator(sp)
         return odl.FunctionalLeftVectorMult(f, v)
+    if k == 'lvec_ce':
+        # complex vector times an operator from a real into a complex space
+        CE = odl.ComplexEmbedding(sp, complex(*o.get('a', [1.0, 0.0])))
+        return odl.OperatorLeftVectorMult(CE * A, el(CE.range, 1))
+    if k == 'rvec_ce':
+        CE = odl.ComplexEmbedding(sp, complex(*o.get('a', [1.0, 0.0])))
+        return odl.OperatorRightVectorMult(CE * A, v)
     raise KeyError(k)
 
 
@@ -276,7 +288,7 @@ def _wavelet(o):
     shp = o.get('shape', [8])
     dom = odl.uniform_discr([0.0] * len(shp), [1.0] * len(shp), shp)
     W = odl.trafos.WaveletTransform(dom, o.get('wavelet', 'haar'), nlevels=o.get('nlevels', 1),
-                                    pad_mode=o.get('pad_mode', 'periodic'))
+                                    pad_mode=o.get('pad_mode', 'periodic'), axes=o.get('axes'))
     return W.inverse if o.get('inv') else W
 
 
@@ -582,6 +594,10 @@ SPECS = [
     OSpec('ResizingOperator', [dict(), dict(pad_mode='symmetric'), dict(pad_mode='periodic'),
                                dict(pad_mode='order0'), dict(pad_mode='order1'),
                                dict(pad_mode='constant', pad_const=1.5), dict(ran_shp=(2,)),
+                               dict(ran_shp=(2,), pad_mode='periodic'), dict(ran_shp=(2,), pad_mode='symmetric'),
+                               dict(ran_shp=(3,), pad_mode='order0'), dict(ran_shp=(3,), pad_mode='order1'),
+                               dict(dom='ud23', ran_shp=(3, 2), pad_mode='order0'),
+                               dict(dom='ud23', ran_shp=(1, 4), pad_mode='symmetric'),
                                dict(offset=(2,)), dict(dom='ud23', ran_shp=(3, 2)),
                                dict(dom='ud4b', ran_shp=(6,)), dict(dom='udc4', ran_shp=(6,))],
           _resize),
@@ -613,39 +629,44 @@ SPECS = [
            dict(kind='ift', shift=False), dict(kind='ift', impl='pyfftw')], _fourier),
     OSpec('WaveletTransform', [dict(), dict(pad_mode='pywt_periodic'), dict(wavelet='db2'),
                                dict(nlevels=2), dict(shape=[4, 4]), dict(pad_mode='symmetric'),
-                               dict(wavelet='bior2.2')], _wavelet),
+                               dict(wavelet='bior2.2'),
+                               dict(shape=[4, 4], axes=[0], pad_mode='pywt_periodic'),
+                               dict(shape=[4, 2], axes=[1], pad_mode='pywt_periodic'),
+                               dict(shape=[2, 4], axes=[1], pad_mode='pywt_periodic', wavelet='db2')], _wavelet),
     OSpec('WaveletTransformInverse', [dict(inv=1), dict(inv=1, pad_mode='pywt_periodic'),
-                                      dict(inv=1, wavelet='db2'), dict(inv=1, shape=[4, 4])],
+                                      dict(inv=1, wavelet='db2'), dict(inv=1, shape=[4, 4]),
+                                      dict(inv=1, shape=[4, 4], axes=[0], pad_mode='pywt_periodic')],
           _wavelet),
     OSpec('RayTransform', [dict()], _ray, approx_adjoint=True,
           note='skimage back-end, 2-d parallel beam only (astra not installed)'),
     OSpec('RayBackProjection', [dict()], lambda o: _ray(o).adjoint, approx_adjoint=True),
     # ---- expression classes of operator.py
-    OSpec('OperatorSum', [dict(k='sum', A='A', B='M'), dict(k='sum', A='P2', B='M'),
+    OSpec('OperatorSum', [dict(k='sum', A='Lap', B='M', space='ud4'), dict(k='sum', A='M', B='Lap', space='ud4'), dict(k='sum', A='PD', B='M', space='ud4'), dict(k='sum', A='A', B='M'), dict(k='sum', A='P2', B='M'),
                           dict(k='sum', A='V', B='M'), dict(k='sum', A='M', B='V'),
                           dict(k='sum_tmp', A='A', B='M'), dict(k='sum_tmp', A='P2', B='sin'),
                           dict(k='sum', A='Ac', B='M', space='cn2')], _expr),
-    OSpec('OperatorVectorSum', [dict(k='vecsum', A='A'), dict(k='vecsum', A='P2'),
+    OSpec('OperatorVectorSum', [dict(k='vecsum', A='Lap', B='M', space='ud4'), dict(k='vecsum', A='M', B='Lap', space='ud4'), dict(k='vecsum', A='PD', B='M', space='ud4'), dict(k='vecsum', A='A'), dict(k='vecsum', A='P2'),
                                 dict(k='vecsum', A='V')], _expr),
-    OSpec('OperatorComp', [dict(k='comp', A='A', B='M'), dict(k='comp', A='P2', B='A'),
+    OSpec('OperatorComp', [dict(k='comp', A='Lap', B='M', space='ud4'), dict(k='comp', A='M', B='Lap', space='ud4'), dict(k='comp', A='PD', B='M', space='ud4'), dict(k='comp', A='A', B='M'), dict(k='comp', A='P2', B='A'),
                            dict(k='comp', A='A', B='P2'), dict(k='comp_tmp', A='sin', B='P2'),
                            dict(k='comp', A='Ac', B='M', space='cn2'), dict(k='comp', A='P3', B='Aff'),
                            dict(k='comp', A='V', B='V'), dict(k='comp', A='M', B='V'),
                            dict(k='comp', A='V', B='M')],
           _expr),
-    OSpec('OperatorPointwiseProduct', [dict(k='pwprod', A='A', B='M'), dict(k='pwprod', A='P2', B='sin'),
+    OSpec('OperatorPointwiseProduct', [dict(k='pwprod', A='Lap', B='M', space='ud4'), dict(k='pwprod', A='M', B='Lap', space='ud4'), dict(k='pwprod', A='PD', B='M', space='ud4'), dict(k='pwprod', A='A', B='M'), dict(k='pwprod', A='P2', B='sin'),
                                        dict(k='pwprod', A='Aff', B='exp'), dict(k='pwprod', A='V', B='M'),
                                        dict(k='pwprod', A='M', B='V'), dict(k='pwprod', A='V', B='V')], _expr),
-    OSpec('OperatorLeftScalarMult', [dict(k='lscal', A='A'), dict(k='lscal', A='P2'),
+    OSpec('OperatorLeftScalarMult', [dict(k='lscal', A='Lap', B='M', space='ud4'), dict(k='lscal', A='M', B='Lap', space='ud4'), dict(k='lscal', A='PD', B='M', space='ud4'), dict(k='lscal', A='A'), dict(k='lscal', A='P2'),
                                      dict(k='lscal', A='A', a=0.0), dict(k='lscal', A='Ac', space='cn2'),
                                      dict(k='lscal', A='V')],
           _expr),
-    OSpec('OperatorRightScalarMult', [dict(k='rscal', A='A'), dict(k='rscal', A='P2'),
+    OSpec('OperatorRightScalarMult', [dict(k='rscal', A='Lap', B='M', space='ud4'), dict(k='rscal', A='M', B='Lap', space='ud4'), dict(k='rscal', A='PD', B='M', space='ud4'), dict(k='rscal', A='A'), dict(k='rscal', A='P2'),
                                       dict(k='rscal_tmp', A='sin'), dict(k='rscal', A='P3', a=-0.5),
                                       dict(k='rscal', A='Ac', space='cn2'), dict(k='rscal', A='V')], _expr),
-    OSpec('OperatorLeftVectorMult', [dict(k='lvec', A='A'), dict(k='lvec', A='P2'), dict(k='lvec', A='V'),
+    OSpec('OperatorLeftVectorMult', [dict(k='lvec_ce', A='A', space='rn2'), dict(k='lvec_ce', A='M', space='rn2', a=[1.0, -2.0]),
+                                     dict(k='rvec_ce', A='A', space='rn2'), dict(k='lvec', A='Lap', B='M', space='ud4'), dict(k='lvec', A='M', B='Lap', space='ud4'), dict(k='lvec', A='PD', B='M', space='ud4'), dict(k='lvec', A='A'), dict(k='lvec', A='P2'), dict(k='lvec', A='V'),
                                      dict(k='lvec', A='Ac', space='cn2')], _expr),
-    OSpec('OperatorRightVectorMult', [dict(k='rvec', A='A'), dict(k='rvec', A='P2'), dict(k='rvec', A='V'),
+    OSpec('OperatorRightVectorMult', [dict(k='rvec', A='Lap', B='M', space='ud4'), dict(k='rvec', A='M', B='Lap', space='ud4'), dict(k='rvec', A='PD', B='M', space='ud4'), dict(k='rvec', A='A'), dict(k='rvec', A='P2'), dict(k='rvec', A='V'),
                                       dict(k='rvec', A='Ac', space='cn2')], _expr),
     OSpec('FunctionalLeftVectorMult', [dict(k='flvec', A='I'), dict(k='flvec', A='I', lin=0),
                                        dict(k='flvec', A='I', space='cn2'),
